@@ -570,11 +570,13 @@ func clone(colors map[int64]int) map[int64]int {
 // the given partial coloring.
 func greedyColoringOf(g graph.Undirected, order graph.Nodes, partial map[int64]int) (k int, colors map[int64]int) {
 	colors = partial
-	constrained := false
+	// Any color in the partial coloring may leave gaps in, or lie
+	// outside, the range of colors assigned below, so the number of
+	// colors is counted at the end when there is a partial coloring.
+	constrained := len(colors) != 0
 	for _, c := range colors {
 		if c > k {
 			k = c
-			constrained = true
 		}
 	}
 
